@@ -132,6 +132,9 @@ func verifyTPMAttestationStatementCertInfo(
 	if tpmCertInfo.AttestedCertifyInfo == nil || tpmCertInfo.AttestedCertifyInfo.Name.Digest == nil {
 		return fmt.Errorf("%w: certify info name is not a digest", ErrInvalidAttestationStatement)
 	}
+	if tpmCertInfo.AttestedCertifyInfo.Name.Digest.Alg != tpmPubArea.NameAlg {
+		return fmt.Errorf("%w: certify info name does not use the pubArea name algorithm", ErrInvalidAttestationStatement)
+	}
 	ch, err := tpmCertInfo.AttestedCertifyInfo.Name.Digest.Alg.Hash()
 	if err != nil {
 		return fmt.Errorf("%w: %s", ErrInvalidAttestationStatement, err)
